@@ -10,7 +10,7 @@ import storefam
 import vlib
 
 PID = "C04"
-FILES = ["theories/Properties/C04.v", "theories/Examples/C04Examples.v"]
+FILES = ["theories/Properties/C04.v", "theories/Examples/C04Examples.v", "theories/Examples/C04Wirings.v"]
 
 _cur = {"fk": set(), "back": set()}   # (root, field) of fk fields / (root, set) of back-reference sets of the current schema
 
@@ -294,7 +294,12 @@ def main(argv):
             "existing one re-pointed), release (delete, null, re-point, or left to the cascade), delete the target, then reference it "
             "again (must be refused) or re-create and reference it (must be accepted), as one transaction or cut into consecutive "
             "transactions of the shared context; plus bounded-exhaustive op sequences (<= 3 of 14 ops) inside one transaction and as "
-            "one-op transactions under the shared context on the self-referencing store. Each history runs in a child process (stack "
+            "one-op transactions under the shared context on the self-referencing store. A further stream (2/5 of the size) runs the "
+            "same generator over the wirings c04ia/c04ib/c04fa/c04ca/c04ya: idx / fkc / casc / cyc with an entity strategy whose fk "
+            "fields are known to the FieldChecker under an api name (PersistContext.WithFieldOverrides, or asked by the strategy) or are "
+            "written whatever the checker says, so that the checker's answer for the STORED name and the written value differ; plus "
+            "bounded-exhaustive patch sequences (<= 2 quick / <= 3 thorough) over five small scenarios of these wirings (root and child "
+            "stores, every fk edge kind). Each history runs in a child process (stack "
             "limit, memory limit, timeout). Compared with the extracted machine: op result kinds, entities, fk field values, back-reference "
             "sets; oracle on the implementation's facts: targets exist, back-reference sets exact, a successful delete removed exactly the "
             "transitive referrers, a refused operation changed nothing, no delete fails with an unclassified error.",
